@@ -1,0 +1,33 @@
+//go:build verif
+
+package argon2crypto
+
+// SetUseSSE4 switches the SSE4.1 code path of the block function on or off and returns the
+// previous setting (it has no effect on builds without the assembly implementation).
+func SetUseSSE4(on bool) (old bool) {
+	old = useSSE4
+	useSSE4 = on
+	return old
+}
+
+// ProcessBlockGeneric applies the portable block function to caller-supplied blocks.
+func ProcessBlockGeneric(out, in1, in2 *[blockLength]uint64, xor bool) {
+	processBlockGeneric((*block)(out), (*block)(in1), (*block)(in2), xor)
+}
+
+// ProcessBlockActive applies the block function the build selects (assembly or portable).
+func ProcessBlockActive(out, in1, in2 *[blockLength]uint64, xor bool) {
+	if xor {
+		processBlockXOR((*block)(out), (*block)(in1), (*block)(in2))
+	} else {
+		processBlock((*block)(out), (*block)(in1), (*block)(in2))
+	}
+}
+
+// IndexAlpha exposes the reference-block index computation.
+func IndexAlpha(rand uint64, lanes, segments, threads, n, slice, lane, index uint32) uint32 {
+	return indexAlpha(rand, lanes, segments, threads, n, slice, lane, index)
+}
+
+// Blake2bHash exposes the variable-length hash H'.
+func Blake2bHash(out, in []byte) { blake2bHash(out, in) }
